@@ -566,10 +566,12 @@ class Simulator:
             return Result(IntegrationFailure())
         if (parameters := self.simulation_parameters) is None:
             return Result(IntegrationFailure())
+        # Hand over copies of the lists: the simulator appends to its own ones when the
+        # simulation is continued, which must not change a result obtained earlier
         return Result(
             Simulation(
                 model=self.model,
-                raw_variables=variables,
-                raw_parameters=parameters,
+                raw_variables=list(variables),
+                raw_parameters=list(parameters),
             )
         )
